@@ -21,6 +21,7 @@ type copyCase struct {
 	Mutate  []string `json:"mutate"`  // M: run on the copy after Copy()
 	Mutate2 []string `json:"mutate2"` // M2: run on the original after that (both sides change, differently)
 	Chain   int      `json:"chain"`   // how many times the copy is copied again (copies of copies)
+	Sibs    int      `json:"sibs"`    // further copies taken from the original right after (siblings of the first copy)
 }
 
 const pollBudget = 400_000
@@ -133,9 +134,16 @@ func checkCopy(c copyCase) (out harness.Outcome) {
 			return fail("two fresh runtimes disagree on setup program %d: %s vs %s (nondeterminism)", i, resA[i], resR[i])
 		}
 	}
+	// the family: the chain orig → c1 → … → cp (intermediate copies are kept), and siblings copied from the original
+	// after that; only cp and the original are changed below, every other member must stay what it was
 	cp := orig.Copy()
+	var others []*otto.Otto
 	for i := 0; i < c.Chain; i++ {
+		others = append(others, cp)
 		cp = cp.Copy() // copy of a copy
+	}
+	for i := 0; i < c.Sibs; i++ {
+		others = append(others, orig.Copy())
 	}
 	dOrig0 := dump(orig)
 	dReplay0 := dump(replay)
@@ -187,16 +195,36 @@ func checkCopy(c copyCase) (out harness.Outcome) {
 	if eO, eR := run(orig, heap.Exercise), run(refOrig, heap.Exercise); eO != eR {
 		return fail("after the changes, calling the exported functions on the original gives %q, on its reference %q", eO, eR)
 	}
+	// 6. the rest of the family (intermediate copies of the chain, siblings) saw none of that: each still equals the
+	// replayed runtime as it was at copy time, behaves like it, and using one does not show in the next
+	for i, o := range others {
+		if d := diff(dump(o), dReplay0); d != "" {
+			return fail("family member %d (chain %d, siblings %d: intermediate copies first) changed although only the last copy and the original were used (state shared between copies?): %s", i, c.Chain, c.Sibs, d)
+		}
+	}
+	for i, o := range others {
+		if e := run(o, heap.Exercise); e != eR {
+			return fail("calling the exported functions on family member %d gives %q, on a replayed runtime %q", i, e, eR)
+		}
+		if d := diff(dump(o), dReplay1); d != "" {
+			return fail("after calling the exported functions family member %d differs from the replayed runtime after the same calls: %s", i, d)
+		}
+		for j := i + 1; j < len(others); j++ {
+			if d := diff(dump(others[j]), dReplay0); d != "" {
+				return fail("using family member %d changed family member %d: %s", i, j, d)
+			}
+		}
+	}
 	return out
 }
 
 var copyFacet = harness.Register(&harness.Facet[copyCase]{
 	Name: "copy-vs-replay",
-	Rule: "rapid: a setup history of 1-4 programs (templates building counters in closures, shared environments, prototype chains, accessors over hidden state, restricted attributes and reordered properties, frozen/sealed objects, bound functions with bound arguments, leaked and aliased arguments objects, functions with own properties, modified built-ins, RegExp lastIndex, Date and Error objects, cycles, wrappers, sparse arrays, eval/Function/with bindings; 30% programs from the semantic generator), 0-3 mutation programs for the copy, 0-2 different ones for the original, and a copy-of-copy depth 0-2. Oracle: differential against replay — A=New();A.Run(H); C=A.Copy()^n; R=New();R.Run(H): canonical heap dump (every reachable object: class, prototype, extensibility, own properties in order with attributes and values, function source, Date/RegExp/wrapper internals) of C equals R's; calling every exported function gives equal results and equal heaps; the original's dump is unchanged by anything run on the copy; then BOTH sides are changed differently (mutation programs plus a program adding a differently named fresh key to every global object and function) and each must equal its own replayed reference after the same programs, in dump and in the results of calling the exported functions. Non-trivial = the history defines a function; distinct by case",
+	Rule: "rapid: a setup history of 1-4 programs (templates building counters in closures, shared environments, prototype chains, accessors over hidden state, restricted attributes and reordered properties, frozen/sealed objects, bound functions with bound arguments, leaked and aliased arguments objects, functions with own properties, modified built-ins, RegExp lastIndex, Date and Error objects, cycles, wrappers, sparse arrays, eval/Function/with bindings; 30% programs from the semantic generator), 0-3 mutation programs for the copy, 0-2 different ones for the original, a copy-of-copy depth 0-2 and 0-2 sibling copies taken from the original afterwards. Oracle: differential against replay — A=New();A.Run(H); C=A.Copy()^n; R=New();R.Run(H): canonical heap dump (every reachable object: class, prototype, extensibility, own properties in order with attributes and values, function source, Date/RegExp/wrapper internals) of C equals R's; calling every exported function gives equal results and equal heaps; the original's dump is unchanged by anything run on the copy; then BOTH sides are changed differently (mutation programs plus a program adding a differently named fresh key to every global object and function) and each must equal its own replayed reference after the same programs, in dump and in the results of calling the exported functions; finally every other member of the family (intermediate copies of the chain, siblings) must still equal the replayed runtime as it was at copy time, behave like it, and not show in one another. Non-trivial = the history defines a function; distinct by case",
 	Quick:    400,
 	Thorough: 4000,
 	Gen: func(t *rapid.T) copyCase {
-		c := copyCase{Chain: rapid.IntRange(0, 2).Draw(t, "chain")}
+		c := copyCase{Chain: rapid.IntRange(0, 2).Draw(t, "chain"), Sibs: rapid.IntRange(0, 2).Draw(t, "sibs")}
 		for i, n := 0, rapid.IntRange(1, 4).Draw(t, "nsetup"); i < n; i++ {
 			c.Setup = append(c.Setup, heap.Piece(t, heap.Builders, "builder"))
 		}
@@ -230,12 +258,13 @@ func TestCopyEachBuilder(t *testing.T) {
 			Mutate:  []string{strings.ReplaceAll(heap.Mutators[i%len(heap.Mutators)], "%N", n)},
 			Mutate2: []string{strings.ReplaceAll(heap.Mutators[(i+7)%len(heap.Mutators)], "%N", n)},
 			Chain:   i % 3,
+			Sibs:    (i / 3) % 3,
 		})
 	}
 	// targeted triples: every copy depth 0..2
 	for _, tr := range heap.Targeted {
 		for chain := 0; chain <= 2; chain++ {
-			cases = append(cases, copyCase{Setup: []string{tr.Setup}, Mutate: []string{tr.OnCopy}, Mutate2: []string{tr.OnOrig}, Chain: chain})
+			cases = append(cases, copyCase{Setup: []string{tr.Setup}, Mutate: []string{tr.OnCopy}, Mutate2: []string{tr.OnOrig}, Chain: chain, Sibs: (chain + 1) % 3})
 		}
 	}
 	harness.SetExhaustive(eachFacet.Name)
